@@ -1125,7 +1125,7 @@ async def run_async(ctx: Ctx, use_model: bool, scale: dict):
 SCALES = {
     "quick": {"capture_rounds": 1, "per_pair": 1, "flips": 2, "every_byte_upto": 0, "every_byte_stride": 1,
               "unsigned_samples": 40, "pack_cases": 20, "identity_stride": 1},
-    "thorough": {"capture_rounds": 4, "per_pair": 2, "flips": 8, "every_byte_upto": 1500, "every_byte_stride": 3,
+    "thorough": {"capture_rounds": 3, "per_pair": 1, "flips": 8, "every_byte_upto": 1500, "every_byte_stride": 4,
                  "unsigned_samples": 300, "pack_cases": 300, "identity_stride": 1},
     "search": {"capture_rounds": 2, "per_pair": 2, "flips": 4, "every_byte_upto": 0, "every_byte_stride": 1,
                "unsigned_samples": 100, "pack_cases": 0, "identity_stride": 1},
